@@ -73,6 +73,10 @@ func (d *syncDirs) resetDst(t fsmodel.Tree) error {
 
 // transfer runs one Send/Receive of the current source into the current dest.
 func (d *syncDirs) transfer(c SyncCase, srcTree fsmodel.Tree) *SyncObs {
+	return d.transferFault(c, srcTree, xfer.Fault{})
+}
+
+func (d *syncDirs) transferFault(c SyncCase, srcTree fsmodel.Tree, fault xfer.Fault) *SyncObs {
 	o := &SyncObs{}
 	var err error
 	if o.Before, err = fsmodel.Snapshot(d.dst); err != nil {
@@ -121,7 +125,7 @@ func (d *syncDirs) transfer(c SyncCase, srcTree fsmodel.Tree) *SyncObs {
 		opt.NotifyHashed = notes.Handle
 		opt.ContentHasher = xfer.Hasher
 	}
-	o.Res = xfer.Run(src, d.dst, opt, nil)
+	o.Res = xfer.RunFault(src, d.dst, opt, nil, fault)
 	o.Notes = notes.List
 	if o.After, err = fsmodel.Snapshot(d.dst); err != nil {
 		o.Err = err.Error()
